@@ -41,6 +41,8 @@ inductive SKind where
 inductive Res where
   | ok (k : Nat)
   | busy
+  /-- EINVAL -/
+  | inval
   deriving DecidableEq, Repr
 
 /-! ## `u16::next_power_of_two` -/
@@ -306,7 +308,10 @@ def ringMulti (cap buflen : Nat) : Nat → Bool → Pool → Src → MOp → Poo
   | 0, _, p, s, m => (p, s, m)
   | fuel + 1, chk, p, s, m =>
     let empty := decide (p.head % 65536 = p.tail % 65536)
-    if chk && empty then (p, s, { m with fin := some .busy })
+    -- KERNEL: `IORING_OP_READ_MULTISHOT` rejects an SQE whose `len` is not 0 (`io_read_mshot_prep`);
+    -- `ReadMulti::create_entry` passes the caller's `len`
+    if s.kind == .pipe && cap != 0 then (p, s, { m with fin := some .inval })
+    else if chk && empty then (p, s, { m with fin := some .busy })
     else
       match s.peek (effCap cap buflen) 0 with
       | .none => (p, s, m)
@@ -432,6 +437,7 @@ def finishFut (w : World) (i : Nat) (s : Src) (f : Fut) (r : Res) (flag : Bool) 
   let s' := { s with fut := none, sockState := st }
   match r with
   | .busy => ({ w with pool := w.pool.dropOpt f.buf }.setSrc i s', .err now "busy")
+  | .inval => ({ w with pool := w.pool.dropOpt f.buf }.setSrc i s', .err now "InvalidInput")
   | .ok 0 => ({ w with pool := w.pool.dropOpt f.buf }.setSrc i s', .none now)
   | .ok k =>
     match f.buf with
@@ -529,6 +535,7 @@ def terminalItem (w : World) (i : Nat) (s : Src) (len : Nat) (m : MOp) (r : Res)
   let p0 := w.pool.resetGuards m.guards
   match r with
   | .busy => ({ w with pool := p0.dropOpt m.buf }.setSrc i s', .ierr "busy")
+  | .inval => ({ w with pool := p0.dropOpt m.buf }.setSrc i s', .ierr "InvalidInput")
   | .ok k =>
     match m.buf with
     | none => ({ w with pool := p0 }.setSrc i s', .fin)
@@ -670,17 +677,21 @@ def evSrc (w : World) (kind : SKind) (size : Nat) : World × Out :=
     ({ w with srcs := w.srcs ++ [{ kind := kind, avail := if kind == .file then size else 0, dq := [],
                                     eof := false, sockState := none, fut := none, strm := none }] }, .ok)
 
-/-- one round of `write 1 byte; read_managed(1); await; drop` on a pipe -/
-def spinOnce (w : World) (i : Nat) : World :=
+/-- one round of `write 1 byte; read_managed(1); await; drop` on a pipe; `none` when the read gave no buffer -/
+def spinOnce (w : World) (i : Nat) : World × Bool :=
   let w1 := (evWrite w i 1).1
   let w2 := (evRead w1 i 1 0).1
   match evAwait w2 i with
-  | (w3, .some _ id _) => (evDrop w3 id).1
-  | (w3, _) => w3
+  | (w3, .some _ id _) => ((evDrop w3 id).1, true)
+  | (w3, _) => (w3, false)
 
+/-- repeat until a round yields no buffer -/
 def spinN (i : Nat) : Nat → World → World
   | 0, w => w
-  | k + 1, w => spinN i k (spinOnce w i)
+  | k + 1, w =>
+    match spinOnce w i with
+    | (w', true) => spinN i k w'
+    | (w', false) => w'
 
 def evSpin (w : World) (i k : Nat) : World × Out :=
   match validSrc w i with
